@@ -38,7 +38,9 @@ def plan(pid, tier, seed):
         runs.append(("boundary", lambda: engines.boundary(tier, seed)))
     if pid in ("C08", "C10", "C09"):
         runs.append(("boundary-release", lambda: engines.boundary(tier, seed, release=True)))
-    if pid in ("C08", "C10"):
+    if pid in ("C10", "C17"):
+        runs.append(("boundary-events", lambda: engines.boundary(tier, seed, features=("events",))))
+    if pid in ("C08", "C10", "C01"):
         runs.append(("boundary-wrapping", lambda: engines.boundary(tier, seed, features=("wrapping_version",))))
     if pid in ("C05",):
         runs.append(("match", lambda: macroeng.match_enum(tier, seed)))
@@ -63,7 +65,7 @@ def plan(pid, tier, seed):
         for feats, rel in confs:
             runs.append(("drive-" + cfg_name(feats, rel), (lambda f=feats, r=rel: engines.drive(tier, seed, features=f, release=r, small=(f != () or r)))))
             runs.append(("boundary-" + cfg_name(feats, rel), (lambda f=feats, r=rel: engines.boundary(tier, seed, features=f, release=r))))
-    if pid in ("C11",):
+    if pid in ("C11", "C04", "C10"):
         runs.append(("borrow", lambda: engines.borrow(tier, seed)))
     if pid in ("C17",):
         runs.append(("drive-events", lambda: engines.drive(tier, seed, features=("events",))))
